@@ -4,6 +4,7 @@ EXTENDS ProviderCache
 Src2 == <<"s1", "s2">>
 Src3 == <<"s1", "s2", "s3">>
 Src1 == <<"s1">>
+Prov1 == <<"p">>
 Prov2 == <<"p", "q">>
 Prov3 == <<"p", "q", "r">>
 =============================================================================
